@@ -63,6 +63,9 @@ GEN = {
 # C06 at the loop (see ALIAS): a running repeat, held keys and chords across tablet-mode changes
 GEN[("C06", "quick")] = [("basic", ["P:S"], 1, 2, 2, 0), ("shiftchord", ["P:LEFTSHIFT", "P:A", "R:LEFTSHIFT"], 3, 1, 0, 0), ("chord", ["P:LEFTCTRL", "P:K"], 2, 1, 1, 0)]
 GEN[("C06", "thorough")] = GEN[("C12", "thorough")]
+# C18 at the real driver (see ALIAS): large batches - nine keys released at once by the tablet switch, bursts of pass-through events
+GEN[("C18", "quick")] = [("passthru", ["R:1"], 1, 1, 0, 0, NINE), ("basic", ["P:A", "R:A"], 1, 1, 0, 0, 20)]
+GEN[("C18", "thorough")] = [("passthru", ["R:1", "P:A"], 2, 2, 0, 0, NINE), ("basic", ["P:A", "R:A"], 2, 1, 0, 0, 40)]
 # random (simulated) behaviours at larger bounds
 SIM = {
     "C10": [("basic", ["P:A", "R:A", "P:S", "R:S"], 6, 1, 1, 1), ("absorb", ["P:C", "P:A", "R:A", "P:B", "R:C"], 6, 1, 0, 1)],
@@ -70,10 +73,11 @@ SIM = {
     "C12": [("basic", ["P:S", "R:S", "P:A", "R:A"], 6, 3, 2, 0), ("absorb", ["P:C", "R:C", "P:A", "P:B"], 6, 3, 0, 0), ("chord", ["P:LEFTCTRL", "P:K", "R:K", "R:LEFTCTRL"], 5, 3, 2, 0)],
     "C20": [("basic", ["P:A", "R:A", "P:S"], 4, 2, 2, 1)],
     "C06": [],
+    "C18": [],
 }
 INVARIANTS = ["NoLostWakeup", "SendsAreMapperOutputs", "QuietInTabletMode", "HeldMatches", "ReleasedInTablet", "ChordsAreTransient", "StopsOnFailure", "EmitSchedule"]
 # registers of LoopTrace that must be non-zero for a run of the property to be non-vacuous
-NEED = {"C10": [4, 8], "C11": [3, 6], "C12": [5, 9, 10], "C20": [7], "C06": [5, 10]}
+NEED = {"C10": [4, 8], "C11": [3, 6], "C12": [5, 9, 10], "C20": [7], "C06": [5, 10], "C18": [4, 5]}
 REGS = ["traces", "drifts", "chords_judged", "step_sends_judged", "releaseall_sends_judged", "timed_polls_judged", "failing_calls_judged",
         "polls_with_unread_events_queued", "key_events_read_in_tablet_mode", "tablet_on_with_keys_held"]
 
@@ -339,7 +343,11 @@ def startup_runs(res, exe, wd, tier):
 
 # loop-level clauses that are ALSO what another property says, seen at the loop: C06 ("after the release-all operation used on tablet-mode
 # changes nothing is held ... answers as a newly created mapper ... no memory of ... repeat triggers survives")
-ALIAS = {"C06": {"C12-repeat-survives-tablet-switch", "C12-not-fresh-after-tablet-mode", "C12-not-released-at-tablet-on"}}
+ALIAS = {"C06": {"C12-repeat-survives-tablet-switch", "C12-not-fresh-after-tablet-mode", "C12-not-released-at-tablet-on"},
+         # C18 at the real driver ("for every batch of output events the bytes written are one record per event ... followed by exactly one
+         # SYN_REPORT"): under the real driver every write is decoded and logged as one send, so a batch that is split, merged, truncated or
+         # malformed on its way through RealDriver::send / DevInputWriter::send shows as a payload that is not the batch
+         "C18": {"C10-wrong-payload-step", "C10-wrong-payload-releaseall", "C10-unexpected-send", "C10-send-missing-step", "C10-send-missing-releaseall"}}
 
 
 def clause_prop(c, prop=None):
@@ -415,9 +423,9 @@ def variants(prop, tier, cases):
         out = [dict(c, faults="all") for c in cases[::step]]
     # the same runs one level lower: the REAL driver (mio, evdev-format reads, uinput-format writes) with the three system
     # calls it makes answered by the same scripted environment; MSC/SYN framing, auto-repeat and unnamed-key noise rotate
-    stride = {"quick": 3, "thorough": 1}[tier]
+    stride = {"quick": 3, "thorough": 1}[tier] if prop != "C18" else 1      # (C18's loop-level part is about the real driver only)
     # an injected write failure carries EIO, EAGAIN or ENODEV in turn (the two the readers treat as "no data" / "device gone")
-    out += [dict(c, id=c["id"] + "-sys%d" % (i % 3), mode="sys", noise=i % 3, werr=[5, 11, 19][(i // 3) % 3]) for i, c in enumerate(out[::stride])]
+    out += [dict(c, id=c["id"] + "-sys%d" % (i % 4), mode="sys", noise=i % 4, werr=[5, 11, 19][(i // 3) % 3]) for i, c in enumerate(out[::stride])]
     return out
 
 
